@@ -96,7 +96,7 @@ def enumerate_cases(tier):
 
 META_NAMES = ["a", "b.txt", "c.TXT", "d.tar.gz", ".hidden", ".cfg.toml", "README", "x.ZIP", "song.Mp3", "doc.pdf", "f.woff2",
               "img.jpeg", "main.rs", "v.mkv", "book.epub", "noext.", "two..dots", "UP.RS", "é.png", "s p.c", "arch.7z", "q.zz",
-              "w.tar.gz", "k.up"]
+              "w.tar.gz", "k.up", ".zip", ".c", ".MP3", ".zz", ".tar.gz"]   # incl. names that ARE an extension
 BIG = [32767, 32768, 32769, 65535, 65536, 65537, 1048576, 8191, 8192, 8193]
 
 
